@@ -72,6 +72,15 @@ def rule_KC(run: Run) -> RuleResult:
                 continue
             if c not in keyed_any and not selfop:
                 bad.add(c)
+        # (3) every evaluate path's children are keyed together by ONE keys path
+        for p in epaths:
+            need = set(op_targets(p, "evaluate")) - {"<self>"}
+            if not need or need & bad:
+                continue
+            if not selfop and not any(need <= set(op_targets(k, "keys")) for k in kpaths):
+                worst = sorted(need - set().union(*[set(op_targets(k, "keys")) for k in kpaths if set(op_targets(k, "keys")) & need] or [set()]))
+                for c in (worst or sorted(need)):
+                    bad.add(c)
         trivial = not evaluated_any and not keyed_any
         for c in sorted(set(evaluated_any) | bad):
             if c == "<self>":
@@ -169,6 +178,21 @@ def rule_XA(run: Run) -> RuleResult:
             ok = any(set(op_targets(k, "keys")) - {"<self>"} <= ex for k in cands)
             res.add(f"{cls.qualname}:explain:path{{{','.join(sorted(ex))}}} covers-keys-path", ok, f, ln,
                     f"{cls.name}.explain path explaining {sorted(ex)} " + ("covers" if ok else "covers no") + " keys path with the same selection", nec)
+        common = None
+        for k in kpaths:
+            ks = set(op_targets(k, "keys")) - {"<self>"}
+            common = ks if common is None else (common & ks)
+        if common:
+            for p in xpaths:
+                ex = set(op_targets(p, "explain"))
+                missing = sorted(common - ex)
+                if missing and not selfop:
+                    res.add(f"{cls.qualname}:explain:path explains the always-keyed children", False, f, ln,
+                            f"a returning explain path (fallback={any(e.failed for e in p.events)}) explains {sorted(ex)} but every keys() path keys {sorted(common)}", nec)
+                    break
+            else:
+                res.add(f"{cls.qualname}:explain:path explains the always-keyed children", True, f, ln,
+                        f"every returning explain path explains {sorted(common)}", nec)
         if not want:
             res.add(f"{cls.qualname}:explain:no-children", True, f, ln, "no children", nec, trivial=True)
     return res
@@ -284,6 +308,8 @@ def rule_EG(run: Run) -> RuleResult:
                 guarded = False
                 for g in e.guards:
                     for t in g.split("|"):
+                        if t.endswith("!"):
+                            continue  # this handler may re-raise the caught error
                         t = t.strip("() ")
                         for one in t.split(","):
                             one = one.strip().split(".")[-1]
